@@ -233,10 +233,10 @@ func runC15One(cs *vrt.Case) {
 	}
 	n := 64
 	if kind >= 2 {
-		n = vrt.Pick(r, []int{8, 64, 100, 600, 513, 1025})
+		n = vrt.Pick(r, []int{8, 64, 100, 600, 513, 1025, 3, 7, 131, 1027, 2047})
 	}
 	if kind == 8 {
-		n = vrt.Pick(r, []int{600, 1024, 1025, 1600, 2100})
+		n = vrt.Pick(r, []int{600, 1024, 1025, 1027, 1600, 2100, 2051})
 	}
 	b := choiceVec(r, n, 4)
 	delta := ot.Label{D0: r.U64(), D1: r.U64()}
